@@ -28,7 +28,7 @@ from vp.props import optcommon as OC
 VALUES = [0, 1, 2, 3, 7]
 
 
-MODES = ["shared", "distinct", "unnamed", "lead", "lead_unnamed", "lead_distinct", "distinct_keep1", "unnamed_vi", "lead_unnamed_vi"]
+MODES = ["shared", "distinct", "unnamed", "lead", "lead_unnamed", "lead_distinct", "distinct_keep1", "unnamed_vi", "lead_unnamed_vi", "trail"]
 
 
 def redeclare(mb: bytes, spec, mode: str):
@@ -56,6 +56,9 @@ def redeclare(mb: bytes, spec, mode: str):
             elif mode == "lead_distinct":
                 # a fresh symbol per leading dim; dims of size 1 stay static (rules reason from a known 1)
                 name = f"L{len(symbols)}" if ax == 0 and size != 1 else None
+            elif mode == "trail":
+                # only the LAST axis is symbolic (leading dims stay static)
+                name = f"T{len(symbols)}" if ax == len(tt.shape.dim) - 1 else None
             elif mode == "distinct_keep1":
                 name = f"K{len(symbols)}" if size != 1 else None
             else:
@@ -241,6 +244,19 @@ def shape_models():
             h.n("Mul", ["k", "d"], "y")
             h.out("y")
             out.append(h.build())
+    # arithmetic on shape values: Abs may be dropped only where the value is known to be non-negative
+    for xs in [(2, 4), (3,)]:
+        for delta, opn in ((-3, "Add"), (3, "Sub"), (1, "Add"), (-1, "Mul")):
+            h = H(f"Abs({opn}(Shape(x)[0:1], [{delta}])) x={list(xs)}")
+            h.inp("x", F, xs)
+            h.inp("k", I64, (1,))
+            h.n("Shape", ["x"], "s", start=0, end=1)
+            h.c("d", np.array([delta], dtype=np.int64))
+            h.n(opn, ["s", "d"], "a")
+            h.n("Abs", ["a"], "b")
+            h.n("Mul", ["b", "k"], "y")
+            h.out("y")
+            out.append(h.build())
     # a shape value (1-D) that changes rank: reshaped to a column / row / scalar before static dims are picked out of it
     for xs in [(2, 3, 4), (2, 3)]:
         r = len(xs)
@@ -330,7 +346,8 @@ def main(tier: str, only=None) -> int:
         for fam, hs in by.items():
             if fam != "shape":
                 r.shuffle(hs)
-                hs = hs[:40]
+                keep_ = [h for h in hs if ": Expand x=" in h[2]]   # plain Expand hosts: one per input/target shape pair
+                hs = keep_ + [h for h in hs if h not in keep_][:40]
             hosts += hs
     payloads = []
     for mb, spec, tag, fams in hosts:
@@ -338,7 +355,7 @@ def main(tier: str, only=None) -> int:
             onnx.checker.check_model(onnx.load_from_string(mb))
         except Exception:  # noqa: BLE001
             continue
-        modes = MODES if (tier == "thorough" or fams[0] == "shape" or "full-range idiom" in tag) else [r.choice(MODES)]
+        modes = MODES if (tier == "thorough" or fams[0] == "shape" or "full-range idiom" in tag or ": Expand x=" in tag) else [r.choice(MODES)]
         for mode in modes:
             smb, symspec, symbols = redeclare(mb, spec, mode)
             if not symbols or len(symbols) > 4:
